@@ -41,6 +41,9 @@ func must(err error) {
 var kinds = []string{"mem", "kvplain", "mount", "submem", "cache", "tar", "osfs"}
 var methods = []string{"read", "readat", "write", "writeat", "seek", "stat", "readdir", "truncate", "chmod", "sync", "close"}
 
+// boundary-argument variants of the methods above (see call)
+var variants = []string{"read:0", "readat:0", "write:0", "writeat:0", "seek:cur", "readdir:all", "truncate:same"}
+
 type built struct {
 	fs       hackpadfs.FS
 	readOnly bool
@@ -148,31 +151,55 @@ func osOpenKind(root, hk string) *os.File {
 }
 
 // call invokes one method through the file helpers. supported reports whether the handle has the method at all.
+//
+// A method name may carry a boundary-argument variant after a colon ("write:0" = empty buffer, "seek:cur" = Seek(0, current),
+// "readdir:all" = n <= 0, "truncate:same" = the current size): the degenerate calls an implementation is tempted to answer
+// before looking at the handle.
 func call(f hackpadfs.File, method string) (err error, supported bool) {
 	supported = true
 	switch method {
 	case "read":
 		_, err = f.Read(make([]byte, 4))
+	case "read:0":
+		_, err = f.Read([]byte{})
 	case "readat":
 		_, supported = f.(hackpadfs.ReaderAtFile)
 		_, err = hackpadfs.ReadAtFile(f, make([]byte, 4), 1)
+	case "readat:0":
+		_, supported = f.(hackpadfs.ReaderAtFile)
+		_, err = hackpadfs.ReadAtFile(f, []byte{}, 0)
 	case "write":
 		_, supported = f.(hackpadfs.ReadWriterFile)
 		_, err = hackpadfs.WriteFile(f, []byte("zz"))
+	case "write:0":
+		_, supported = f.(hackpadfs.ReadWriterFile)
+		_, err = hackpadfs.WriteFile(f, []byte{})
 	case "writeat":
 		_, supported = f.(hackpadfs.WriterAtFile)
 		_, err = hackpadfs.WriteAtFile(f, []byte("zz"), 1)
+	case "writeat:0":
+		_, supported = f.(hackpadfs.WriterAtFile)
+		_, err = hackpadfs.WriteAtFile(f, []byte{}, 0)
 	case "seek":
 		_, supported = f.(hackpadfs.SeekerFile)
 		_, err = hackpadfs.SeekFile(f, 1, io.SeekStart)
+	case "seek:cur":
+		_, supported = f.(hackpadfs.SeekerFile)
+		_, err = hackpadfs.SeekFile(f, 0, io.SeekCurrent)
 	case "stat":
 		_, err = f.Stat()
 	case "readdir":
 		_, supported = f.(hackpadfs.DirReaderFile)
 		_, err = hackpadfs.ReadDirFile(f, 1)
+	case "readdir:all":
+		_, supported = f.(hackpadfs.DirReaderFile)
+		_, err = hackpadfs.ReadDirFile(f, -1)
 	case "truncate":
 		_, supported = f.(hackpadfs.TruncaterFile)
 		err = hackpadfs.TruncateFile(f, 3)
+	case "truncate:same":
+		_, supported = f.(hackpadfs.TruncaterFile)
+		err = hackpadfs.TruncateFile(f, 11)
 	case "chmod":
 		_, supported = f.(hackpadfs.ChmoderFile)
 		err = hackpadfs.ChmodFile(f, 0o600)
@@ -192,20 +219,34 @@ func osCall(f *os.File, method string) error {
 	switch method {
 	case "read":
 		_, err = f.Read(make([]byte, 4))
+	case "read:0":
+		_, err = f.Read([]byte{})
 	case "readat":
 		_, err = f.ReadAt(make([]byte, 4), 1)
+	case "readat:0":
+		_, err = f.ReadAt([]byte{}, 0)
 	case "write":
 		_, err = f.Write([]byte("zz"))
+	case "write:0":
+		_, err = f.Write([]byte{})
 	case "writeat":
 		_, err = f.WriteAt([]byte("zz"), 1)
+	case "writeat:0":
+		_, err = f.WriteAt([]byte{}, 0)
 	case "seek":
 		_, err = f.Seek(1, io.SeekStart)
+	case "seek:cur":
+		_, err = f.Seek(0, io.SeekCurrent)
 	case "stat":
 		_, err = f.Stat()
 	case "readdir":
 		_, err = f.ReadDir(1)
+	case "readdir:all":
+		_, err = f.ReadDir(-1)
 	case "truncate":
 		err = f.Truncate(3)
+	case "truncate:same":
+		err = f.Truncate(11)
 	case "chmod":
 		err = f.Chmod(0o600)
 	case "sync":
@@ -268,10 +309,13 @@ func checkClosed(c ClosedCase) (string, string) {
 		if pan != "" || hung {
 			return base + ":" + m + ":crash", fmt.Sprintf("%s after Close: %s hung=%v", m, pan, hung)
 		}
-		if err == nil {
-			return base + ":" + m + ":succeeds", fmt.Sprintf("%s after Close returned nil", m)
-		}
 		oerr := osCall(ref, m)
+		if err == nil && oerr == nil {
+			continue // a degenerate call os.File answers without looking at the handle either
+		}
+		if err == nil {
+			return base + ":" + m + ":succeeds", fmt.Sprintf("%s after Close returned nil (os.File: %v)", m, oerr)
+		}
 		if supported && errors.Is(oerr, os.ErrClosed) && !errors.Is(err, hackpadfs.ErrClosed) {
 			return base + ":" + m + ":not-errclosed", fmt.Sprintf("%s after Close: %v does not match ErrClosed (os.File: %v)", m, err, oerr)
 		}
@@ -289,7 +333,7 @@ func TestClosed(t *testing.T) {
 					c.Handle = rapid.SampledFrom([]string{"ro", "dir"}).Draw(rt, "rohandle")
 				}
 				c.Before = rapid.SliceOfN(rapid.SampledFrom(methods[:10]), 0, 3).Draw(rt, "before")
-				c.Methods = rapid.Permutation(methods).Draw(rt, "order")
+				c.Methods = rapid.Permutation(append(append([]string{}, methods...), variants...)).Draw(rt, "order")
 				rec.Step(c)
 				rec.NonTrivial()
 				rec.Class("handle:" + c.Handle)
